@@ -78,6 +78,18 @@ func c17RoundTrip(c *hx.Ctx, r *hx.RNG) {
 			if err := z.GobDecode(b); err != nil {
 				panic("GobDecode rejects GobEncode's output: " + err.Error())
 			}
+			// both buffers belong to the caller: overwriting them must neither change the decoded value nor what the
+			// next GobEncode returns
+			enc, zr := string(b), hx.RawOf(&z)
+			for i := range b[:cap(b)] {
+				b[:cap(b)][i] = 0xFF
+			}
+			if !zr.Identical(hx.RawOf(&z)) {
+				panic("the decoded value changed when the input buffer was overwritten afterwards")
+			}
+			if b2, _ := x.GobEncode(); string(b2) != enc {
+				panic("GobEncode returned different bytes after its first result had been overwritten by its owner")
+			}
 		}
 	})
 	cls := "roundtrip/direct"
